@@ -50,6 +50,10 @@ CLAIMED = {
             "Static decision that encoder (MakeIndices, Kind) and decoder (Tokenize) agree on units, kind tables, per-kind layout and sizes, and that lossy conversions are guarded exactly at 255; with Split/Join inverse (trusted) this gives the round trip for all tokens of 1..255 characters, ASCII or not.",
             "Trusted: strings.Split(s,\"\")/Join inverse on character boundaries; utf8.RuneCountInString counts the same units. Not decided: value equality as such.",
             "DESIGN.md section 3 C11"),
+    "C17": ("table extraction from the CLI's initialiser, provenance of recipe-field stores, CFG path rules on main with exit calls as terminators (exit statuses, exactly-one-stdout-write), stdout who-may-write over the call graph",
+            "Partial (structural clauses, CLI not executed): flag-word tables, defaults, recipe wiring, exit statuses and stdout discipline decided for all command lines at once on the source. That the printed password satisfies the recipe is C03/C05 for the wired recipe.",
+            "Trusted: package flag (ExitOnError => status 2), log.Fatal (stderr, status 1). Not decided: behaviour for unknown separator/class words; the binary's runtime behaviour.",
+            "DESIGN.md section 3 C17"),
 }
 
 NOT_APPLICABLE = {
